@@ -31,6 +31,8 @@ type c13case struct {
 	Lits    [][2]string       `json:"lits"`    // literal text before/after each reference
 	FromSub bool              `json:"from_subdir"`
 	Redef   map[string]string `json:"redefined"` // string variables given a new value between the two tasks
+	Clobber bool              `json:"clobber"`   // a further task whose commands assign/unset shell variables of the same names
+	Counter bool              `json:"counter"`   // two exec variables with the same, non-idempotent command text
 }
 
 func (k c13case) key() string { b, _ := json.Marshal(k); return string(b) }
@@ -124,7 +126,9 @@ func c13Gen(r *core.Rng) c13case {
 	}
 	k.FromSub = r.Chance(25)
 	k.Redef = map[string]string{}
-	if failAt < 0 {
+	k.Clobber = failAt < 0 && len(k.Vars) > 0 && r.Chance(25)
+	k.Counter = failAt < 0 && r.Chance(15)
+	if failAt < 0 && !k.Clobber {
 		for _, v := range k.Vars {
 			if r.Chance(30) {
 				k.Redef[v.Name] = c13Value(r) + "!"
@@ -136,6 +140,11 @@ func c13Gen(r *core.Rng) c13case {
 
 func (k c13case) text() string {
 	var b strings.Builder
+	if k.Counter {
+		// the same command text twice: each exec is evaluated on its own
+		b.WriteString("CNT_A := exec(\"printf x >> @CNT@ && wc -c < @CNT@\")\n")
+		b.WriteString("CNT_B := exec(\"printf x >> @CNT@ && wc -c < @CNT@\")\n")
+	}
 	for _, v := range k.Vars {
 		switch v.Kind {
 		case "string":
@@ -157,6 +166,17 @@ func (k c13case) text() string {
 	}
 	b.WriteString("    printf '%s\\n' done\n")
 	b.WriteString("}\n")
+	if k.Clobber {
+		// every command is a shell of its own: what one command assigns or unsets is gone in the next
+		b.WriteString("\ntask clobber() {\n")
+		for _, v := range k.Vars {
+			fmt.Fprintf(&b, "    %s=clobbered-in-an-earlier-command\n", v.Name)
+			fmt.Fprintf(&b, "    printf '%%s\\n' \"$%s\"\n", v.Name)
+			fmt.Fprintf(&b, "    unset %s\n", v.Name)
+			fmt.Fprintf(&b, "    printf '%%s\\n' \"$%s\"\n", v.Name)
+		}
+		b.WriteString("}\n")
+	}
 	if len(k.Redef) > 0 {
 		// the same names get new values, then a second task with the very same command lines
 		b.WriteString("\n")
@@ -196,7 +216,8 @@ func (k c13case) expect(v c13var, cwd string) string {
 func c13Judge(c *core.Ctx, k c13case, res *core.ShardResult) (vs []core.Violation) {
 	sb := newSandbox(c.TempDir("c13-"))
 	defer os.RemoveAll(sb.Root)
-	text := k.text()
+	cnt := filepath.Join(sb.Root, "counter")
+	text := strings.ReplaceAll(k.text(), "@CNT@", cnt)
 	_ = os.WriteFile(filepath.Join(sb.Proj, "spokfile"), []byte(text), 0o644)
 	cwd := sb.Proj
 	if k.FromSub {
@@ -219,6 +240,7 @@ func c13Judge(c *core.Ctx, k c13case, res *core.ShardResult) (vs []core.Violatio
 	}
 	run := func(args ...string) core.Invocation {
 		res.Evaluations++
+		_ = os.Remove(cnt)
 		return core.RunSpok(core.SpokOpts{Bin: c.SpokRace(), Dir: cwd, Home: sb.Home, Args: args, Env: env})
 	}
 	hasFail := false
@@ -326,6 +348,24 @@ func c13Judge(c *core.Ctx, k c13case, res *core.ShardResult) (vs []core.Violatio
 			res.Count("variables_shadowing_dotenv", 1)
 		}
 	}
+	if k.Clobber {
+		invC := run("--json", "clobber")
+		var jc []jsonResult
+		if invC.Exit != 0 || json.Unmarshal([]byte(strings.TrimSpace(invC.Stdout)), &jc) != nil || len(jc) != 1 || len(jc[0].Results) != 4*len(k.Vars) {
+			bad("run-report", "spok --json clobber: exit %d, output %s %s", invC.Exit, core.Trunc(invC.Stdout, 200), core.Trunc(invC.Stderr, 200))
+			return
+		}
+		for i, v := range k.Vars {
+			want := k.expect(v, cwd)
+			for _, j := range []int{4*i + 1, 4*i + 3} {
+				if got := jc[0].Results[j].Stdout; got != want+"\n" {
+					bad("environment-has-spokfile-value", "variable %s = %q, but after an earlier command of the same task assigned/unset a shell variable of that name a later command sees $%s = %q", v.Name, want, v.Name, strings.TrimSuffix(got, "\n"))
+					return
+				}
+			}
+		}
+		res.Count("clobber_cases", 1)
+	}
 	// --vars lists name -> value
 	if invVars.Exit != 0 {
 		bad("vars-succeeds", "spok --vars failed: %s", core.Trunc(invVars.Stderr, 300))
@@ -342,6 +382,13 @@ func c13Judge(c *core.Ctx, k c13case, res *core.ShardResult) (vs []core.Violatio
 		if len(f) >= 1 {
 			listed[strings.TrimSpace(f[0])] = strings.Join(f[1:], "\t")
 		}
+	}
+	if k.Counter {
+		if strings.TrimSpace(listed["CNT_A"]) != "1" || strings.TrimSpace(listed["CNT_B"]) != "2" {
+			bad("exec-evaluated-each-time", "two exec variables with the same command text (append one byte, print the size) are %q and %q, want 1 and 2", listed["CNT_A"], listed["CNT_B"])
+			return
+		}
+		res.Count("counter_cases", 1)
 	}
 	for _, v := range k.Vars {
 		want := k.expect(v, cwd)
